@@ -117,6 +117,9 @@ func NewExplorer(prog *ssa.Program, pkg *ssa.Package, fn *ssa.Function, cfg Conf
 	}
 	if cfg.Z3 == "" {
 		cfg.Z3 = "z3"
+		if v := os.Getenv("VERIF_Z3"); v != "" {
+			cfg.Z3 = v
+		}
 	}
 	if cfg.QueryTimeoutMs == 0 {
 		cfg.QueryTimeoutMs = 20000
